@@ -270,6 +270,8 @@ type Opts struct {
 	AllPlatforms    bool               `json:"allp,omitempty"`
 	Platforms       []string           `json:"plats,omitempty"`
 	NoCrossPlatform bool               `json:"nocross,omitempty"`
+	// NonFinite: factors that JSON cannot carry: "pboost" or "boost:<word>" -> "+Inf" | "-Inf" | "NaN" (applied by toDB)
+	NonFinite map[string]string `json:"non_finite,omitempty"`
 }
 
 func (o Opts) toDB() database.SearchOptions {
@@ -280,7 +282,27 @@ func (o Opts) toDB() database.SearchOptions {
 			boosts[k] = v
 		}
 	}
-	return database.SearchOptions{Limit: o.Limit, ContextBoosts: boosts, PipelineOnly: o.PipelineOnly, PipelineBoost: o.PipelineBoost,
+	pboost := o.PipelineBoost
+	nf := func(s string) float64 {
+		switch s {
+		case "+Inf":
+			return math.Inf(1)
+		case "-Inf":
+			return math.Inf(-1)
+		}
+		return math.NaN()
+	}
+	for k, v := range o.NonFinite {
+		if k == "pboost" {
+			pboost = nf(v)
+		} else if strings.HasPrefix(k, "boost:") {
+			if boosts == nil {
+				boosts = map[string]float64{}
+			}
+			boosts[strings.TrimPrefix(k, "boost:")] = nf(v)
+		}
+	}
+	return database.SearchOptions{Limit: o.Limit, ContextBoosts: boosts, PipelineOnly: o.PipelineOnly, PipelineBoost: pboost,
 		UseFuzzy: o.UseFuzzy, FuzzyThreshold: o.FuzzyThreshold, UseNLP: o.UseNLP, TopTermsCap: o.TopTermsCap, AllPlatforms: o.AllPlatforms,
 		Platforms: append([]string(nil), o.Platforms...), NoCrossPlatform: o.NoCrossPlatform}
 }
